@@ -435,18 +435,24 @@ func (d *c20) dbOracle(burns []burnRec, merged *evSummary, delivered bool) {
 		}
 	}
 	if delivered {
+		// decided on counts only: which of the merged tickets the shipped handler stores depends
+		// on a Go map's iteration order
+		notStored, example := 0, burnRec{}
 		for _, br := range burns {
 			if _, ok := rows[br.hash]; ok {
 				d.tr.Probe("burn_ticket_recorded")
 				continue
 			}
 			if _, inInput := merged.tickets[br.hash]; inInput {
-				d.viol("handler", "handler/burn-ticket-not-stored", "burn %s (address %s nonce %d) reached the TagAddBurnTicket handler among %d tickets but has no burn_tickets row", short(br.hash), br.addr, br.nonce, len(merged.tickets))
+				notStored++
+				example = br
 			} else {
 				// already reported by the merge oracle for this block
 				d.tr.Probe("burn_ticket_lost_before_handler")
 			}
-			break
+		}
+		if notStored > 0 {
+			d.viol("handler", "handler/burn-ticket-not-stored", "%d of the %d tickets that reached the TagAddBurnTicket handler have no burn_tickets row (e.g. burn %s, address %s nonce %d)", notStored, len(merged.tickets), short(example.hash), example.addr, example.nonce)
 		}
 	}
 	d.rows = rows
